@@ -2,9 +2,9 @@ CONSTANTS
   Sids = {1, 2}
   RC = 2
   MaxCU = 7
-  MaxOps = 3
+  MaxOps = 2
   GenHist = FALSE
 INIT Init
 NEXT Next
-INVARIANTS ServesOnlyAuthentic ServesOnlyInSync RejectKeeps ProofOnlyIfServed ServedAccounting NoLockLeak CuBound
+INVARIANTS ServesOnlyAuthentic AsksRequestEpoch ServesOnlyInSync RejectKeeps ProofOnlyIfServed ServedAccounting NoLockLeak CuBound
 CHECK_DEADLOCK FALSE
